@@ -37,6 +37,9 @@ func parseCacheControl(ccHeader string) (cacheControl, error) {
 				slog.Debug("max-age is less than 1 second, treating as no-cache", "raw", directive)
 				continue
 			}
+			// Clamp so that the conversion to nanoseconds cannot overflow into a negative lifetime.
+			const maxSeconds = int64(1<<63-1) / int64(time.Second)
+			maxAge = min(maxAge, maxSeconds)
 			cc.maxAge = time.Duration(maxAge) * time.Second
 		}
 	}
